@@ -7,6 +7,7 @@ EXTREMES = "seqs"   # worker re-labels every sixth case to the ends of the legal
 SHUFFLE = "seqs"    # worker: every seventh case is built by add_absolute_message in shuffled order
 CANONICAL_ABS = True   # the function under test pairs / merges over the canonically sorted list (oracle.abs_order)
 SPLIT_WAITS = "seqs"   # worker: every fifth case is built from relative messages with rests split into adjacent waits
+DEGEN = "seqs"    # worker: every 37th case gets degenerate operands (gen.degenerate)
 SCALE = True   # worker: every fortieth case is blown up by scale_case below
 PROP = "C15"
 MONITORS = ["merge"]
